@@ -308,7 +308,7 @@ def run(ck):
     ck.log((out.strip() or err.strip())[-300:])
     translator_ok = rc == 0
     proof_ok, failing = ck.proof_stage('MpVerif.C13.Props', 'MpVerif/C13/Props.lean', 'C13_',
-                                        ['MpVerif/C13/*.lean', 'MpVerif/Gen/C13Gen.lean'], expect_min=12)
+                                        ['MpVerif/C13/*.lean', 'MpVerif/Gen/C13Gen.lean'], expect_min=15)
     if not translator_ok:
         failing.append('translator gen_c13.py: ' + (out + err).strip()[-300:])
         proof_ok = False
@@ -316,7 +316,7 @@ def run(ck):
     # proof-only modules that need Mathlib (not imported by the driver): the chord-error lemma over the reals, and
     # monotonicity / idempotence of the model's concrete rounding functions => C13_increasing for the IEEE instance
     extra_thms = []
-    for mod, nmin in (('MpVerif.C13.PropsGen', 14), ('MpVerif.C13.PropsIEEE', 6), ('MpVerif.C13.Chord', 5)):
+    for mod, nmin in (('MpVerif.C13.PropsGen', 14), ('MpVerif.C13.PropsIEEE', 8), ('MpVerif.C13.Chord', 5), ('MpVerif.C13.ChordRun', 5)):
         okm, outm = ck.lake([mod])
         if not okm:
             bad_decls = ck.failing_decls(outm, mod.replace('.', '/') + '.lean')
@@ -335,9 +335,9 @@ def run(ck):
             ck.cov['discharged'] = ck.cov.get('discharged', 0) + len(th)
             extra_thms += [n for n, _ in th]
     ck.cov['theorems'] = ck.cov.get('theorems', []) + extra_thms
-    ck.cov['checker_cmd'] = ck.cov.get('checker_cmd', '') + ' ; same for MpVerif.C13.PropsGen (definitions regenerated by translators/gen_c13.py), MpVerif.C13.PropsIEEE and MpVerif.C13.Chord'
+    ck.cov['checker_cmd'] = ck.cov.get('checker_cmd', '') + ' ; same for MpVerif.C13.PropsGen (definitions regenerated by translators/gen_c13.py), MpVerif.C13.PropsIEEE, MpVerif.C13.Chord and MpVerif.C13.ChordRun'
     if ck.tier == 'thorough' and proof_ok:
-        bad = ck.leanchecker(['MpVerif.C13.Props', 'MpVerif.C13.PropsGen', 'MpVerif.C13.PropsIEEE', 'MpVerif.C13.Chord'])
+        bad = ck.leanchecker(['MpVerif.C13.Props', 'MpVerif.C13.PropsGen', 'MpVerif.C13.PropsIEEE', 'MpVerif.C13.Chord', 'MpVerif.C13.ChordRun'])
         if bad:
             failing += ['leanchecker rejected %s' % m for m in bad]
             proof_ok = False
